@@ -246,6 +246,22 @@ def registry_oracle(o):
             o.check("registry:listed-loaded", n in registry.list_crypt_handlers(loaded_only=True), inp, None, "listed as loaded")
         except Exception as e:  # noqa: BLE001
             o.check("registry:load", False, inp, errname(e) + ": " + str(e)[:80], "loads")
+    # the look-ups above (other spellings included) must leave the registry as it was: same names, each still carrying its own name
+    after = registry.list_crypt_handlers()
+    o.check("registry:list-stable", after == names, {"op": "registry-list-after-lookups"}, sorted(set(after) ^ set(names))[:6], "the same names as before the look-ups")
+    for n in after:
+        try:
+            h = registry.get_crypt_handler(n)
+            o.check("registry:name-after-lookups", h.name == n and getattr(passlib.hash, n) is h, {"op": "registry", "name": n, "after": "alias look-ups"}, h.name, n)
+        except Exception as e:  # noqa: BLE001
+            o.check("registry:name-after-lookups", False, {"op": "registry", "name": n, "after": "alias look-ups"}, errname(e), n)
+    try:
+        from passlib.context import CryptContext
+
+        c = CryptContext(schemes=[n for n in names if n in ("des_crypt", "md5_crypt", "sha256_crypt", "ldap_md5", "hex_md5", "plaintext")])
+        o.check("registry:context-after-lookups", bool(c.schemes()), {"op": "registry-context-after-lookups"}, c.schemes(), "a context over registry names still builds")
+    except Exception as e:  # noqa: BLE001
+        o.check("registry:context-after-lookups", False, {"op": "registry-context-after-lookups"}, errname(e) + ": " + str(e)[:100], "a context over registry names still builds")
     for bad in ("nosuch_crypt", "md5_crypt2", "", "hash", "PLAINTEXT_"):
         inp = {"op": "registry-unknown", "name": bad}
         try:
